@@ -43,7 +43,7 @@ class CuckooWorld(Scenario):
             "auto_expand": rng.chance(1, 2),
             # rate 1 ("expand" into a table of the same size) is legal and makes failed expansions frequent
             "expansion_rate": rng.weighted([(4, 2), (1, 3), (1, 1)]),
-            "hash": rng.weighted([(2, "default"), (4, "sim"), (1, "wide")]),
+            "hash": rng.weighted([(2, "default"), (4, "sim"), (1, "wide"), (1, "signed")]),
             "hseed": rng.below(1 << 16),
             "universe": rng.choice((6, 10, 16, 30, 60)),
             "strat": rng.choice(seams.Sched.STRATS[:4]),
@@ -62,6 +62,11 @@ class CuckooWorld(Scenario):
         if self.allow_huge and rng.chance(1, 150 if os.environ.get("DSIM_TIER") != "thorough" else 60):
             cfg.update({"capacity": rng.choice((17000, 22000)), "bucket_size": 4, "universe": 400, "steps": rng.between(20, 40),
                         "fanout": False, "fan_all": False, "huge": True})
+        if rng.chance(1, 30):
+            # very long eviction chains (beyond the interpreter's default recursion limit and any fixed-size log);
+            # a small table so that chains are actually exhausted
+            cfg.update({"max_swaps": rng.choice((1100, 1300, 2500)), "capacity": rng.choice((1, 2, 3)),
+                        "bucket_size": rng.choice((1, 2)), "fanout": False, "fan_all": False})
         if cfg["fault_free"]:
             # fault-free configuration: a table large enough that no insertion needs a kick
             cfg["capacity"] = 64
@@ -113,8 +118,9 @@ class CuckooWorld(Scenario):
         self.fans_left = self.fanout_cap
         self.sr = seams.install_simrandom()
         # "wide": a strategy returning 128-bit integers (only the low bits make the fingerprint; bucket = hash mod capacity)
-        self.hf = seams.make_single_hash("sim" if cfg["hash"] == "wide" else cfg["hash"], cfg["hseed"],
-                                         128 if cfg["hash"] == "wide" else 64)
+        # "signed": values in [-2^63, 2^63) like Python's own hash(); '%' on a negative value is still a bucket index
+        self.hf = seams.make_single_hash("sim" if cfg["hash"] in ("wide", "signed") else cfg["hash"], cfg["hseed"],
+                                         128 if cfg["hash"] == "wide" else 64, signed=cfg["hash"] == "signed")
         self.cls = CountingCuckooFilter if self.counting else CuckooFilter
         if cfg.get("error_rate"):
             self.f = self.cls.init_error_rate(
